@@ -46,3 +46,31 @@ func VerifEndErrs() []error  { return append([]error(nil), endErrs...) }
 
 // VerifProtoReset exposes the protocol-violation sentinel.
 func VerifProtoReset() error { return errProtoReset }
+
+// VerifEvent, when set, receives every synchronisation event of the client:
+// channel operations on the semaphores and the I/O gates between them.
+var VerifEvent func(site string, args ...int)
+
+func verifEv(site string, args ...int) {
+	if f := VerifEvent; f != nil {
+		f(site, args...)
+	}
+}
+
+func vb(b bool) int {
+	if b {
+		return 1
+	}
+	return 0
+}
+
+// vk classifies a write semaphore value: 0 pending, 1 down, 2 connection.
+func vk(conn net.Conn) int {
+	switch conn {
+	case connPending:
+		return 0
+	case connDown:
+		return 1
+	}
+	return 2
+}
